@@ -87,6 +87,7 @@ Inductive bop :=
 | BVerify (b : N)
 | BVerifyCached (b f : N)
 | BValidate (b rq : N)
+| BValidateMany (b : N) (rqs : list N)
 | BHeader (b : N)
 | BLen (b : N)
 | BCount (b : N) (p : pred)
@@ -134,6 +135,9 @@ Definition bstep (T : tables) (σ : bst) (o : bop) : bst * list Z :=
   | BValidate b rq => match blookup b (bs σ) with
                       | Some bb => (σ, [b2z (validate (t_c T) bb rq)])
                       | None => (σ, []) end
+  | BValidateMany b rqs => match blookup b (bs σ) with
+                           | Some bb => (σ, [b2z (validate_many (t_c T) bb rqs)])
+                           | None => (σ, []) end
   | BHeader b => match blookup b (bs σ) with Some bb => (σ, zl (header bb)) | None => (σ, []) end
   | BLen b => match blookup b (bs σ) with Some bb => (σ, [Z.of_nat (List.length (b_ts bb))]) | None => (σ, []) end
   | BCount b p => match blookup b (bs σ) with
